@@ -24,3 +24,7 @@ func VerifFlushObjs(c Cache) []string {
 	sort.Strings(r)
 	return r
 }
+
+// VerifFlushMarked reports whether addr is marked as being processed by the flusher; it is not a
+// scheduling point (usable in wait conditions).
+func VerifFlushMarked(c Cache, addr oid.Address) bool { return c.(*cache).flushObjs.Peek(addr) }
